@@ -87,7 +87,10 @@ func (l *withPrefix) SafeDetails() []string {
 
 func encodeWithPrefix(_ context.Context, err error) (string, []string, proto.Message) {
 	l := err.(*withPrefix)
-	return l.Error(), l.SafeDetails(), &errorspb.StringPayload{Msg: string(l.prefix)}
+	// The message is a prefix: a receiver that does not know this type
+	// appends ": " and the cause's text to it, so it must not contain the
+	// cause's text already.
+	return l.prefix.StripMarkers(), l.SafeDetails(), &errorspb.StringPayload{Msg: string(l.prefix)}
 }
 
 func decodeWithPrefix(
